@@ -25,6 +25,18 @@ from pvc.sym import And, Or, Not, Implies, Iff, eq, lt, le, is_sym, PathAbort, U
 #                                      C18
 # =====================================================================================
 
+def _preimport():
+    """called from the shapes functions, i.e. in the parent process of the check and only when C18 / C20 is the
+    property being checked: the workers are forked and inherit the imported modules (importing requests, pulp, ...
+    costs seconds per worker otherwise).  A module that does not import is reported by the harness, not here."""
+    for m in ("pydcop.infrastructure.communication", "pydcop.infrastructure.discovery",
+              "pydcop.infrastructure.computations", "pydcop.infrastructure.agents"):
+        try:
+            importlib.import_module(m)
+        except BaseException:  # noqa
+            pass
+
+
 def _infra():
     com = importlib.import_module("pydcop.infrastructure.communication")
     dis = importlib.import_module("pydcop.infrastructure.discovery")
@@ -144,6 +156,109 @@ def _check_delivery(env, area, model, got_sender, got_dest, got_msg, got_type):
     return r
 
 
+class _Stop(Exception):
+    pass
+
+
+class _Hist:
+    """the ``env`` handed to the history code.  Symbolic shapes: a thin wrapper, every choice is an
+    ``env.choice`` (one engine path per history).  Enumerated shapes (``batch``): only the first
+    ``env_levels`` choices go through the engine (they cut the job in parallel slices); the remaining choice
+    vectors are enumerated here, depth first, a fresh world per history - a concrete history costs ~0.2 ms, far
+    less than what the engine spends on scheduling a path."""
+
+    def __init__(self, env, batch=False, env_levels=1):
+        self.env = env
+        self.params = env.params
+        self.batch = batch
+        self.env_levels = env_levels
+        self._top = {}
+        self._trace = []
+        self._pos = 0
+        self.failed = False
+        self.log = []
+        self.histories = 0
+
+    @property
+    def symbolic(self):
+        return self.env.symbolic
+
+    def runs(self):
+        if not self.batch:
+            yield self
+            return
+        while True:
+            self._pos = 0
+            self.log = []
+            self.histories += 1
+            yield self
+            if self.failed:
+                return
+            t = self._trace
+            while t and t[-1][0] >= t[-1][1] - 1:
+                t.pop()
+            if not t:
+                return
+            t[-1][0] += 1
+
+    def choice(self, name, options):
+        options = list(options)
+        if not self.batch:
+            v = self.env.choice(name, options)
+        else:
+            i = self._pos
+            self._pos += 1
+            if i < self.env_levels:
+                if i not in self._top:
+                    self._top[i] = self.env.choice(name, options)
+                v = self._top[i]
+            else:
+                j = i - self.env_levels
+                if j < len(self._trace):
+                    k = self._trace[j][0]
+                else:
+                    self._trace.append([0, len(options)])
+                    k = 0
+                v = options[k]
+        self.log.append((name, v))
+        return v
+
+    def int(self, name, lo=None, hi=None):
+        if self.batch:
+            raise Unsupported("symbolic input in an enumerated shape")
+        v = self.env.int(name, lo, hi)
+        self.log.append((name, v))
+        return v
+
+    def prove(self, label, cond, detail=None):
+        log = list(self.log)
+        ok = self.env.prove(label, cond, detail=lambda: "history=%r\n%s" % (log, detail() if callable(detail) else detail))
+        if not ok:
+            self.failed = True
+        return ok
+
+    def cover(self, label):
+        self.env.cover(label)
+
+    def assume(self, cond):
+        self.env.assume(cond)
+
+    def call(self, fn, *a, **kw):
+        return self.env.call(fn, *a, **kw)
+
+    def op_choice(self, step, opts):
+        """the operation of step ``step``: fixed by the job (params['fix'], an index in the option list - the
+        jobs of one shape partition its histories so that a job stays a single worker slice) or explored"""
+        fix = self.params.get("fix") or ()
+        if step < len(fix):
+            if fix[step] >= len(opts):
+                self.env.assume(False)
+            v = opts[fix[step]]
+            self.log.append(("op%d" % step, v))
+            return v
+        return self.choice("op%d" % step, opts)
+
+
 _SENDERS = ("s_loc", "r_snd")          # a computation of the agent itself / of another agent
 _DESTS = ("k_reg", "e_late", "b_late")  # registered from the start / registered by an operation
 
@@ -221,6 +336,13 @@ def h_messaging(env):
     if isinstance(mods, Raised):
         env.prove("messaging.modules-import", False, detail=lambda: mods.tb)
         return
+    hist = _Hist(env, bool(p.get("batch")), p.get("env_levels", 1))
+    for e in hist.runs():
+        _messaging_history(e, mods)
+
+
+def _messaging_history(env, mods):
+    p = env.params
     com, dis, cmp_ = mods
     late = list(p.get("late", ["e_late"]))
     senders = list(p.get("senders", _SENDERS))
@@ -259,7 +381,7 @@ def h_messaging(env):
             opts.append(("next",))
             if not model.shutdown:
                 opts.append(("shutdown",))
-            op = env.choice("op%d" % step, opts)
+            op = env.op_choice(step, opts)
             if op[0] == "post":
                 prio = _prio(env, com, p["prio"], step)
                 r = w.post(op[1], op[2], prio)
@@ -306,56 +428,81 @@ def h_messaging(env):
         return
 
 
-class _Stop(Exception):
-    pass
+def _split(shape, levels=2):
+    """one job per choice of the first ``levels`` operations (an index beyond the options of a step aborts the
+    job at once): keeps every job of the quick tier within one worker slice"""
+    n = len(shape.get("senders", _SENDERS)) * (1 + len(shape.get("late", ["e_late"]))) + len(shape.get("late", ["e_late"])) + 2
+    n += 1 if shape.get("unregister") else 0
+    out = [[]]
+    for _ in range(levels):
+        out = [f + [i] for f in out for i in range(n)]
+    return [dict(shape, fix=f) for f in out]
 
 
 def _shapes_messaging(tier):
-    # cost on an idle core: a symbolic path ~5-10 ms, a concrete one ~0.2 ms
+    _preimport()
+    # symbolic message types: one engine path per (history, ordering of the types), ~5-10 ms each
+    s = (_split(dict(n_ops=3, prio="sym"))                                               # ~3 800 paths in all
+         + _split(dict(n_ops=4, prio="sym_hi", senders=["s_loc"]))                       # ~2 400
+         + _split(dict(n_ops=3, prio="mixed", senders=["r_snd"], late=["b_late"])))      # ~2 600
+    if tier == "thorough":
+        s += (_split(dict(n_ops=4, prio="sym"))
+              + _split(dict(n_ops=5, prio="sym_hi", senders=["s_loc"]))
+              + _split(dict(n_ops=4, prio="sym", senders=["r_snd"], late=["b_late"]))
+              + _split(dict(n_ops=4, prio="mixed", senders=["s_loc"], late=["b_late"]))
+              + _split(dict(n_ops=3, prio="sym", late=["e_late", "b_late"]))
+              + _split(dict(n_ops=4, prio="sym_hi", senders=["s_loc"], unregister=True)))
+    return s
+
+
+def _shapes_messaging_enum(tier):
+    _preimport()
+    # the pyDcop constants (and the default): histories enumerated inside the harness, ~0.2 ms each
     s = [
-        dict(n_ops=3, prio="sym"),                                            # ~3 800 paths
-        dict(n_ops=4, prio="sym_hi", senders=["s_loc"]),                      # ~2 400
-        dict(n_ops=3, prio="mixed", senders=["r_snd"], late=["b_late"]),      # ~2 600
-        dict(n_ops=3, prio="const"),                                          # ~6 700 (concrete)
-        dict(n_ops=4, prio="const", senders=["r_snd"]),                       # ~13 400 (concrete)
-        dict(n_ops=5, prio="two", senders=["s_loc"]),                         # ~11 900 (concrete)
-        dict(n_ops=5, prio="two", senders=["r_snd"], late=["b_late"]),
+        dict(batch=True, n_ops=3, prio="const"),                                          # 6 700 histories
+        dict(batch=True, n_ops=4, prio="const", senders=["r_snd"]),                       # 13 400
+        dict(batch=True, n_ops=5, prio="two", senders=["s_loc"]),                         # 11 900
+        dict(batch=True, n_ops=5, prio="two", senders=["r_snd"], late=["b_late"]),        # 11 900
     ]
     if tier == "thorough":
         s += [
-            dict(n_ops=4, prio="sym"),
-            dict(n_ops=5, prio="sym_hi", senders=["s_loc"]),
-            dict(n_ops=4, prio="sym", senders=["r_snd"], late=["b_late"]),
-            dict(n_ops=4, prio="const"),
-            dict(n_ops=5, prio="two"),
-            dict(n_ops=6, prio="two", senders=["r_snd"]),
-            dict(n_ops=4, prio="mixed", senders=["s_loc"], late=["b_late"]),
-            dict(n_ops=3, prio="sym", late=["e_late", "b_late"]),
-            dict(n_ops=5, prio="two", late=["e_late", "b_late"], senders=["s_loc"]),
-            dict(n_ops=4, prio="sym_hi", senders=["s_loc"], unregister=True),
-            dict(n_ops=6, prio="two", senders=["s_loc"], unregister=True),
+            dict(batch=True, n_ops=4, prio="const"),
+            dict(batch=True, n_ops=5, prio="two"),
+            dict(batch=True, n_ops=6, prio="two", senders=["r_snd"]),
+            dict(batch=True, n_ops=5, prio="two", late=["e_late", "b_late"], senders=["s_loc"]),
+            dict(batch=True, n_ops=6, prio="two", senders=["s_loc"], unregister=True),
         ]
     return s
 
 
+_MSG_TARGETS = ["pydcop.infrastructure.communication:Messaging.post_msg", "pydcop.infrastructure.communication:Messaging.next_msg",
+                "pydcop.infrastructure.communication:Messaging._on_computation_registration",
+                "pydcop.infrastructure.communication:Messaging.shutdown",
+                "pydcop.infrastructure.communication:InProcessCommunicationLayer.send_msg",
+                "pydcop.infrastructure.communication:InProcessCommunicationLayer.receive_msg",
+                "pydcop.infrastructure.discovery:Discovery.register_computation",
+                "pydcop.infrastructure.discovery:Discovery.subscribe_computation"]
+_MSG_ASSUME = ["C18: all operations are issued from ONE thread (histories = sequential interleavings of the posts of two senders, "
+               "registrations, next_msg and shutdown); preemption of a thread inside post_msg / next_msg (e.g. between "
+               "'msg_queue_count += 1' and 'put', or inside _on_computation_registration) is NOT decided by this technique",
+               "C18: what is posted, or released by a registration, after Messaging.shutdown() may be dropped (documented behaviour); "
+               "it must still not be delivered twice"]
+_MSG_COVER = ["delivered", "held", "released", "shutdown", "drained"]
+
 Contract(
-    "messaging.histories", ["C18"],
-    ["pydcop.infrastructure.communication:Messaging.post_msg", "pydcop.infrastructure.communication:Messaging.next_msg",
-     "pydcop.infrastructure.communication:Messaging._on_computation_registration",
-     "pydcop.infrastructure.communication:Messaging.shutdown",
-     "pydcop.infrastructure.communication:InProcessCommunicationLayer.send_msg",
-     "pydcop.infrastructure.communication:InProcessCommunicationLayer.receive_msg",
-     "pydcop.infrastructure.discovery:Discovery.register_computation",
-     "pydcop.infrastructure.discovery:Discovery.subscribe_computation"],
-    h_messaging, _shapes_messaging, mode="B", must_cover=["delivered", "held", "released", "shutdown", "drained"],
+    "messaging.histories", ["C18"], _MSG_TARGETS, h_messaging, _shapes_messaging, mode="B", must_cover=_MSG_COVER,
     trusted=["queue.PriorityQueue / heapq of CPython (executed for real, comparisons on symbolic message types fork)"],
-    assumptions=["C18: all operations are issued from ONE thread (histories = sequential interleavings of the posts of two senders, "
-                 "registrations, next_msg and shutdown); preemption of a thread inside post_msg / next_msg (e.g. between "
-                 "'msg_queue_count += 1' and 'put', or inside _on_computation_registration) is NOT decided by this technique",
-                 "C18: what is posted, or released by a registration, after Messaging.shutdown() may be dropped (documented behaviour); "
-                 "it must still not be delivered twice"],
+    assumptions=_MSG_ASSUME,
     budget=dict(quick=dict(max_paths=400000, timeout_s=560), thorough=dict(max_paths=4000000, timeout_s=3400)),
-    desc="every history of <= 5 post/register/next_msg/shutdown operations on a real Messaging: exactly once, lowest type first, FIFO per sender, held until registration, drained after shutdown",
+    desc="every history of <= 4 post/register/next_msg/shutdown operations on a real Messaging, message types = arbitrary integers: exactly once, lowest type first, FIFO per sender, held until registration, drained after shutdown",
+)
+
+Contract(
+    "messaging.histories-enumerated", ["C18"], _MSG_TARGETS, h_messaging, _shapes_messaging_enum, mode="E", must_cover=_MSG_COVER,
+    trusted=["queue.PriorityQueue / heapq of CPython (executed for real)"],
+    assumptions=_MSG_ASSUME,
+    budget=dict(quick=dict(max_paths=400000, timeout_s=560), thorough=dict(max_paths=4000000, timeout_s=3400)),
+    desc="the same on every history of <= 5 operations with the message types MSG_MGT / MSG_VALUE / MSG_ALGO / default",
 )
 
 
@@ -402,9 +549,16 @@ def h_agent_loop(env):
     if isinstance(mods, Raised) or isinstance(ag, Raised):
         env.prove("agent.modules-import", False, detail=lambda: (mods, ag))
         return
+    ag.sleep = lambda s: None          # Agent._on_stop waits 0.5 s for the network: no network here
+    hist = _Hist(env, bool(p.get("batch")), p.get("env_levels", 2))
+    for e in hist.runs():
+        _agent_history(e, mods, ag)
+
+
+def _agent_history(env, mods, ag):
+    p = env.params
     com, dis, cmp_ = mods
     area = "agent"
-    ag.sleep = lambda s: None          # Agent._on_stop waits 0.5 s for the network: no network here
     Rec = _rec_class(cmp_)
     late = list(p.get("late", ["e_late"]))
     senders = list(p.get("senders", _SENDERS))
@@ -590,47 +744,61 @@ def h_agent_loop(env):
 
 
 def _shapes_agent(tier):
+    _preimport()
+    s = [dict(n_ops=3, prio="sym_hi", senders=["r_snd"])]                     # ~400 paths (symbolic)
+    if tier == "thorough":
+        s += [dict(n_ops=3, prio="sym"), dict(n_ops=4, prio="sym_hi", senders=["s_loc"])]
+    return s
+
+
+def _shapes_agent_enum(tier):
+    _preimport()
     s = [
-        dict(n_ops=3, prio="two"),                                            # ~5 500 paths (concrete)
-        dict(n_ops=3, prio="const", senders=["s_loc"]),                       # ~5 500
-        dict(n_ops=4, prio="two", senders=["s_loc"]),                         # ~10 500
-        dict(n_ops=4, prio="two", senders=["r_snd"], late=["b_late"]),        # ~10 500
-        dict(n_ops=3, prio="sym_hi", senders=["r_snd"]),                      # ~400 (symbolic)
+        dict(batch=True, n_ops=3, prio="two"),                                            # ~5 500 histories
+        dict(batch=True, n_ops=3, prio="const", senders=["s_loc"]),                       # ~5 500
+        dict(batch=True, n_ops=4, prio="two", senders=["s_loc"]),                         # ~10 500
+        dict(batch=True, n_ops=4, prio="two", senders=["r_snd"], late=["b_late"]),        # ~10 500
     ]
     if tier == "thorough":
         s += [
-            dict(n_ops=4, prio="two"),
-            dict(n_ops=5, prio="two", senders=["s_loc"]),
-            dict(n_ops=3, prio="const"),
-            dict(n_ops=4, prio="const", senders=["r_snd"]),
-            dict(n_ops=3, prio="sym"),
-            dict(n_ops=4, prio="sym_hi", senders=["s_loc"]),
-            dict(n_ops=4, prio="two", late=["e_late", "b_late"], senders=["s_loc"]),
+            dict(batch=True, n_ops=4, prio="two"),
+            dict(batch=True, n_ops=5, prio="two", senders=["s_loc"]),
+            dict(batch=True, n_ops=3, prio="const"),
+            dict(batch=True, n_ops=4, prio="const", senders=["r_snd"]),
+            dict(batch=True, n_ops=4, prio="two", late=["e_late", "b_late"], senders=["s_loc"]),
         ]
     return s
 
 
+_AGT_TARGETS = ["pydcop.infrastructure.agents:Agent._run", "pydcop.infrastructure.agents:Agent._handle_message",
+                "pydcop.infrastructure.agents:Agent.clean_shutdown", "pydcop.infrastructure.agents:Agent.add_computation",
+                "pydcop.infrastructure.agents:Agent.start", "pydcop.infrastructure.agents:Agent._on_start",
+                "pydcop.infrastructure.agents:Agent._on_stop",
+                "pydcop.infrastructure.communication:Messaging.post_msg", "pydcop.infrastructure.communication:Messaging.next_msg",
+                "pydcop.infrastructure.communication:Messaging._on_computation_registration",
+                "pydcop.infrastructure.communication:Messaging.shutdown",
+                "pydcop.infrastructure.computations:MessagePassingComputation.on_message",
+                "pydcop.infrastructure.computations:MessagePassingComputation.post_msg"]
+_AGT_COVER = ["handled", "held", "released", "posted-while-running", "shutdown-with-pending-messages", "loop-ended"]
+_AGT_TRUSTED = ["Agent._run is executed in the harness' thread (Agent.t replaced by a no-op thread object); the operations of the "
+                "other threads are injected between two iterations of the loop (hook on Agent._process_periodic_action)",
+                "the 50 ms wait of next_msg inside the loop is cut to 0 (single thread: nothing can arrive while waiting); "
+                "agents.sleep is a no-op (Agent._on_stop's 0.5 s network grace period)"]
+_AGT_ASSUME = ["C18: the agent loop is run by one thread and the posts / registrations / shutdown request of the other threads take "
+               "effect between two loop iterations or before the loop starts; finer preemption points are NOT decided",
+               "C18: destinations are started computations (messages to a computation that is not started or is paused are "
+               "buffered by the computation itself: property C19)"]
+
 Contract(
-    "agent.run-loop", ["C18"],
-    ["pydcop.infrastructure.agents:Agent._run", "pydcop.infrastructure.agents:Agent._handle_message",
-     "pydcop.infrastructure.agents:Agent.clean_shutdown", "pydcop.infrastructure.agents:Agent.add_computation",
-     "pydcop.infrastructure.agents:Agent.start", "pydcop.infrastructure.agents:Agent._on_start",
-     "pydcop.infrastructure.agents:Agent._on_stop",
-     "pydcop.infrastructure.communication:Messaging.post_msg", "pydcop.infrastructure.communication:Messaging.next_msg",
-     "pydcop.infrastructure.communication:Messaging._on_computation_registration",
-     "pydcop.infrastructure.communication:Messaging.shutdown",
-     "pydcop.infrastructure.computations:MessagePassingComputation.on_message",
-     "pydcop.infrastructure.computations:MessagePassingComputation.post_msg"],
-    h_agent_loop, _shapes_agent, mode="B",
-    must_cover=["handled", "held", "released", "posted-while-running", "shutdown-with-pending-messages", "loop-ended"],
-    trusted=["Agent._run is executed in the harness' thread (Agent.t replaced by a no-op thread object); the operations of the "
-             "other threads are injected between two iterations of the loop (hook on Agent._process_periodic_action)",
-             "the 50 ms wait of next_msg inside the loop is cut to 0 (single thread: nothing can arrive while waiting); "
-             "agents.sleep is a no-op (Agent._on_stop's 0.5 s network grace period)"],
-    assumptions=["C18: the agent loop is run by one thread and the posts / registrations / shutdown request of the other threads take "
-                 "effect between two loop iterations or before the loop starts; finer preemption points are NOT decided",
-                 "C18: destinations are started computations (messages to a computation that is not started or is paused are "
-                 "buffered by the computation itself: property C19)"],
+    "agent.run-loop", ["C18"], _AGT_TARGETS, h_agent_loop, _shapes_agent, mode="B", must_cover=_AGT_COVER,
+    trusted=_AGT_TRUSTED, assumptions=_AGT_ASSUME,
     budget=dict(quick=dict(max_paths=400000, timeout_s=560), thorough=dict(max_paths=4000000, timeout_s=3400)),
-    desc="real Agent loop: every history of <= 4 post/add_computation/clean_shutdown operations placed before the start or between loop iterations; each queued message handled once by its destination, by type then FIFO, all of them before the loop ends",
+    desc="real Agent loop, message types = arbitrary integers: every history of <= 3 post/add_computation/clean_shutdown operations placed before the start or between loop iterations; each queued message handled once by its destination, by type then FIFO, all of them before the loop ends",
+)
+
+Contract(
+    "agent.run-loop-enumerated", ["C18"], _AGT_TARGETS, h_agent_loop, _shapes_agent_enum, mode="E", must_cover=_AGT_COVER,
+    trusted=_AGT_TRUSTED, assumptions=_AGT_ASSUME,
+    budget=dict(quick=dict(max_paths=400000, timeout_s=560), thorough=dict(max_paths=4000000, timeout_s=3400)),
+    desc="the same on every history of <= 4 operations with the pyDcop message types",
 )
